@@ -31,7 +31,7 @@ CHECKS = {
                       'part size 4..40 bytes, <=3 transfers, <=8 faults per run; faults only at operations the copier runs '
                       'under retry_transient_errors; schedule-dependent transfer combinations are pruned by the model; trusts '
                       'the scratch file system, CPython asyncio on the simulated loop and the reference model.',
-        'scenarios': [{'module': 'worlds.fs.copy', 'quick': 40000, 'thorough': 1500000,
+        'scenarios': [{'module': 'worlds.fs.copy', 'quick': 24000, 'thorough': 1200000,
                        'wall_cap': {'quick': 240.0, 'thorough': 1150.0}}],
         'expected_probes': ['multi_part_file', 'multi_part_file_observed', 'size_eq_part_boundary', 'size_multiple_of_part',
                             'zero_byte_file', 'dest_exists_dir', 'dest_exists_file', 'dest_missing', 'dest_parent_missing',
@@ -41,5 +41,34 @@ CHECKS = {
                             'error_expected:IsADirectoryError', 'error_expected:NotADirectoryError',
                             'transient_fault_retried', 'overwrite_existing_file', 'overwrite_longer_file',
                             'buffer_smaller_than_part', 'empty_dir_source', 'files_copied'],
+    },
+    'C23': {
+        'level': 'exploration',
+        'engine': 'fssim',
+        'technique': DST + ': seeded objects, offsets, lengths and read sequences against the real LocalAsyncFS, '
+                           'GoogleStorageAsyncFS, S3AsyncFS and AzureAsyncFS, the cloud ones over simulated transports that '
+                           'stream bodies in seeded chunk sizes, cut them short and fail requests; every returned byte '
+                           'compared with the object slice',
+        'design_ref': 'DESIGN.md section 6 (C23), section 5.3',
+        'level_text': 'Seeded exploration of ranged reads (open_from with/without length followed by read(), read(n) loops, '
+                      'readexactly sequences and read(n)+read(); read_range inclusive/exclusive; read_from) on all four '
+                      'backends with object sizes, offsets and lengths concentrated on the boundaries (empty object, last '
+                      'byte, exactly-to-the-end +/- 1, empty ranges, past the end), bodies delivered in chunks down to one '
+                      'byte and optionally truncated. The repository code of every backend is real; for GCS, S3 and Azure '
+                      'the transport under it is a simulation whose range semantics are stated in the assumptions. Samples '
+                      'inputs and chunkings; not a proof.',
+        'level_note': 'Cloud verdicts rest on the simulated transports (RFC 7233 range server for GCS/S3, '
+                      'azure-storage-blob download_blob(offset, length) semantics for Azure) -- hence borderline. Offsets at or '
+                      'past the end of the object are not judged beyond "no data is returned" (undocumented; backends differ). '
+                      'Object size <= 37 bytes, <= 4 operations per run.',
+        'scenarios': [{'module': 'worlds.fs.ranged', 'quick': 40000, 'thorough': 2000000,
+                       'wall_cap': {'quick': 240.0, 'thorough': 1150.0}}],
+        'expected_probes': ['backend:local', 'backend:gcs', 'backend:s3', 'backend:azure', 'via_router', 'zero_size_object',
+                            'range_empty', 'range_ends_at_last_byte', 'range_is_last_byte_only', 'range_past_eof',
+                            'read_range_inclusive', 'read_range_exclusive', 'offset_eq_size', 'offset_past_size',
+                            'open_from_with_length', 'length_zero', 'length_past_eof', 'length_to_last_byte',
+                            'one_byte_chunk', 'short_read_mid_stream', 'op_with_truncated_body', 'prefix_after_truncated_body',
+                            'unexpected_eof_raised', 'readexactly_past_range', 'read_n_loop_complete', 'http_416',
+                            'gcs_request_fault_retried'],
     },
 }
